@@ -18,8 +18,7 @@ def renderVal (kind : String) : Val → String
   | .absent => "absent"
   | .arr xs =>
     if kind == "R" then
-      -- (zero-size records are not rendered: the real reader cannot recover their number from the data — known finding)
-      "[" ++ ",".intercalate ((xs.filter (!·.isEmpty)).map fun r => "(" ++ ".".intercalate (r.map toString) ++ ")") ++ "]"
+      "[" ++ ",".intercalate (xs.map fun r => "(" ++ ".".intercalate (r.map toString) ++ ")") ++ "]"
     else if kind.startsWith "L" then
       -- length-prefixed records: the count the reader finds in front of the items, then the items
       let il := (kind.drop 1).toNat!
@@ -52,6 +51,25 @@ def argView (args : List Nat) : View :=
     | a :: as, i => (argBase + i, .num a) :: go as (i + 1)
   go args 0
 
+/-- For the re-emission check only: a `ComputedArray` of zero-sized items reads back empty although its count says `n`
+(known finding, `RItem.arrayV … true`); the bytes are those of `n` empty records, so the owned value that is re-emitted
+gets `n` empty records back. -/
+def restoreZeroSized (rs : List RF) (view : View) : View :=
+  let rec go : List RF → View → View → View
+    | [], _, acc => acc
+    | r :: rs, pre, acc =>
+      -- `pre`: what the reader had seen when it reached `r` (entries are most recent first)
+      let seen := pre
+      match r.item, view.lookup r.id with
+      | .arrayV cnt segs true, some (.arr []) =>
+        let ws := evalSegs seen segs
+        let n := evalCount seen [] ws cnt
+        let v := if condHolds seen r.cond && elemSize ws == 0 then Val.arr (List.replicate n []) else .arr []
+        go rs ((r.id, .arr []) :: pre) (acc.map fun e => if e.1 == r.id then (e.1, v) else e)
+      | _, some v => go rs ((r.id, v) :: pre) acc
+      | _, none => go rs pre acc
+  go rs (view.filter fun e => e.1 ≥ argBase) view
+
 def rt (ty : String) (bytes : Bytes) (args : List Nat) : String :=
   match Gen.WriteProgs.allPairs.find? (fun p => p.1 == ty) with
   | none => "uncovered"
@@ -62,11 +80,12 @@ def rt (ty : String) (bytes : Bytes) (args : List Nat) : String :=
     | none => "err:parse"
     | some (view, rest) =>
       let fields := renderFields names shows hidden rs view
-      let o := toObj ws view
+      let viewZ := restoreZeroSized rs view
+      let o := toObj ws viewZ
       let ext : Ext := fun k _ => match computedId ws k with | some i => numAt view i | none => 0
       let again :=
         match emit ext o ws av with
-        | some (bs, view') => bs ++ rest == bytes && view' == view
+        | some (bs, view') => bs ++ rest == bytes && view' == viewZ
         | none => false
       let fs := if fields.isEmpty then "-" else " ".intercalate fields
       s!"ok {fs} | {if again then 1 else 0}"
